@@ -28,12 +28,17 @@ TEXT = {
  },
  "C15": {
   "level": "Exploration: generated programs (control-flow grammar and typed word soup over the whole dictionary, failing programs included) are driven six ways - eval, compile+run, compile+single-step, each with reverse recording off and on - from identical interpreters and every observation the statement lists (result/error, stack, variables, output) must agree.",
-  "note": "Self-consistency oracle (no reference semantics needed). Programs that exhaust the 40000-instruction budget are skipped and counted.",
+  "note": "Self-consistency oracle (no reference semantics needed). All runs carry an instruction budget; programs stopped by it are compared too. A drive mode that does not stop within 40 CPU-seconds is reported as disagreeing (hang).",
   "technique": "six-way twin-execution monitor (drive mode x recording) over generated programs",
  },
  "C02": {
   "level": "Exploration: generated programs over the full instruction repertoire are single-stepped with recording on while the dump hook records every state; a seeded rnext/next walk, a full rewind and a full replay must reproduce the recorded dump (ip, data stack, frames with locals, loop records, builder marks, all variables) at every position.",
   "note": "Self-consistency oracle over the verif_dump hook; histories <= 400 steps; every ReverseStep variant and every emitted opcode must be observed or the run is inconclusive.",
   "technique": "recorded-history monitor: dump after every step, checked against itself under random rewind/replay walks",
+ },
+ "C03": {
+  "level": "Exploration: clone-tree histories (clone of clone, drops, stepping and reverse-stepping one copy while others rest) over sources that share storage and then mutate it; after every operation every copy and snapshot that was not operated on must render bit-identically, and the operations executed after each clone point are replayed on the pristine snapshot and must reproduce every observation and the final state. Includes the c_api snapshot functions and (separately) the REPL's canvas plugin.",
+  "note": "Trusts the harness rendering (every cell rendered structurally, bit-strings bit by bit through the public iterator). The REPL binary itself is not driven; its snapshot/rollback are State::clone, which is what is monitored.",
+  "technique": "history monitor: immutability of untouched copies after every operation + replay of the post-clone suffix on the snapshot (twin execution)",
  },
 }
